@@ -170,6 +170,14 @@ Next ==
                           [id |-> BytesToHex(Reverse(TxId(t))), pfx |-> BytesToHex(Take(Reverse(TxId(t)), 0, 5)), ver |-> BytesToHex(t.version),
                            nin |-> Len(t.vin), nout |-> Len(t.vout), lock |-> BytesToHex(t.locktime)]
             IN Judge(ev, [tx |-> d(ev.tx), txin |-> d(ev.txin)], [tx |-> ev.shown_tx, txin |-> ev.shown_in], <<"IdsShown", ev.kind>>)
+       \* tap --tx=<hex>: the transaction it prints carries every field of the one it was given as encoded (version, inputs with their
+       \* sequences, outputs, lock time); only the witness of the spending input is what the tool adds
+       ELSE IF ev.e = "TapTx" THEN
+            LET Core(t) == [version |-> BytesToHex(t.version), locktime |-> BytesToHex(t.locktime), vout |-> t.vout,
+                            vin |-> [i \in 1..Len(t.vin) |-> [txid |-> t.vin[i].txid, n |-> t.vin[i].n, script |-> t.vin[i].script, sequence |-> t.vin[i].sequence]]]
+                a == Parse(H(ev.tx))
+                b == IF ev.result = "" THEN <<FALSE, <<>>, 0>> ELSE Parse(H(ev.result))
+            IN Judge(ev, [ok |-> TRUE, core |-> Core(a[2])], IF ~b[1] THEN [ok |-> FALSE, core |-> <<>>] ELSE [ok |-> TRUE, core |-> Core(b[2])], <<"TapTx", ev.result # "", ev.kind>>)
        ELSE IF ev.e = "Amt" THEN
             (IF AmtUnspec(ev) THEN /\ stats' = [stats EXCEPT !.calls = @ + 1] /\ cov' = cov \cup {<<"Amt", "zero-with-exponent">>} /\ UNCHANGED divs
              ELSE Judge(ev, AmtExpected(ev), AmtObserved(ev), <<"Amt", ev.ok, \E i \in 1..Len(StrToCodes(ev.text)) : StrToCodes(ev.text)[i] \in {101, 69}>>))
